@@ -137,6 +137,30 @@ fn main() {
                 writeln!(out, "{}", s).unwrap();
             }
         }
+        // W TAB REORDER HEX -> TREE \t (DOC \t OUTHEX \t COUNT | err | panic MSGHEX)
+        "full" => {
+            for line in stdin.lock().lines() {
+                let line = line.unwrap();
+                let mut it = line.split_whitespace();
+                let cfg = cfg_fields(&mut it);
+                let src = unhex(it.next().unwrap());
+                let source = Source::detached(src.clone());
+                let tree = dump::tree(source.root());
+                let res = catch(std::panic::AssertUnwindSafe(|| {
+                    typstyle_core::verif_hooks::reset();
+                    let mut d = String::new();
+                    let r = Typstyle::new(cfg).format_source_inspect(&source, |doc| {
+                        d = dump::doc_of_arena(doc);
+                    });
+                    (r, d, typstyle_core::verif_hooks::get())
+                }));
+                match res {
+                    Ok((Ok(o), d, n)) => writeln!(out, "{}\t{}\t{}\t{}", tree, d, hex(&o), n).unwrap(),
+                    Ok((Err(_), _, _)) => writeln!(out, "{}\terr", tree).unwrap(),
+                    Err(p) => writeln!(out, "{}\tpanic {}", tree, hex(&p)).unwrap(),
+                }
+            }
+        }
         // W -> chain_width
         "chainw" => {
             for line in stdin.lock().lines() {
